@@ -20,3 +20,8 @@ func TestRequirednessTable(t *testing.T) { pbt.Run(t, Prop) }
 var RespProp = pbt.Register(httpcheck.RespProp("TestMappedResponseFields"))
 
 func TestMappedResponseFields(t *testing.T) { pbt.Run(t, RespProp) }
+
+// The result of j2t does not depend on the capacity of the caller's buffer.
+var SweepProp = pbt.Register(reqcheck.SweepProp("TestCapacitySweep"))
+
+func TestCapacitySweep(t *testing.T) { pbt.Run(t, SweepProp) }
